@@ -253,10 +253,10 @@ Require Gengo.Model.Pipeline Gengo.Model.Whole Gengo.Proofs.Pipeline Gengo.Proof
    position, the GenerateType / GenerateAliasType / callback events of Pipeline.exec_trace, and both end alike
    (no package skipped through gengo.sum, everything rendered parses: outside Dispatch's scope). *)
 Theorem C06_whole_dispatch_is_pipeline :
-  forall fmt order G wps fuel gens a modroot s,
+  forall fmt order rank G wps fuel gens a modroot s,
     NoDup (map Whole.wp_path wps) ->
     (forall src, fmt src <> None) ->
-    let E := Whole.whole_env fmt order G in
+    let E := Whole.whole_env fmt order rank G in
     let w := Whole.to_world modroot wps in
     (forall wp, In wp wps ->
        Pipeline.pkg_changed a w (Pipeline.load_prev E a w s) (Whole.to_pkginfo wp) = true) ->
@@ -271,7 +271,7 @@ Print Assumptions C06_whole_dispatch_is_pipeline.
 
 (* C06_exactly_once and C06_defers_exactly_once as statements about the log of a successful run of the pipeline *)
 Theorem C06_whole_exactly_once_of_pipeline_trace :
-  forall fmt order G wps fuel gens a modroot s wp g,
+  forall fmt order rank G wps fuel gens a modroot s wp g,
     NoDup (map Whole.wp_path wps) -> In wp wps -> In g gens ->
     NoDup (keys G) -> NoDup (keys (WholeDispatch.P_of wp)) ->
     (forall d, In d (pk_defs (Whole.wp_d wp)) -> NoDup (keys (td_tags d))) ->
@@ -279,7 +279,7 @@ Theorem C06_whole_exactly_once_of_pipeline_trace :
     (forall d, In d (pk_defs (Whole.wp_d wp)) -> td_action d <> AErr) ->
     (forall d, In d (pk_defs (Whole.wp_d wp)) -> forallb no_err_tree (td_defers d) = true) ->
     WholeDispatch.fuel_ok G fuel wp g ->
-    let E := Whole.whole_env fmt order G in
+    let E := Whole.whole_env fmt order rank G in
     let w := Whole.to_world modroot wps in
     let gs := map (Whole.disp_gen wps fuel) gens in
     Pipeline.exec_outcome E a w gs s = Pipeline.Done ->
